@@ -753,7 +753,10 @@ func (s *State) applyFunction(name string, fn object.Object, args []object.Objec
 			s.cacheEpoch = epoch
 		}
 	}
-	if v, output, ok := s.cache.Get(function.CacheKey, args); ok {
+	// Binding an argument to an upper case (constant) parameter succeeds or fails depending on what that name
+	// already is where the function was defined, which isn't part of the key: such calls aren't remembered.
+	cacheable := !hasConstantParameter(function)
+	if v, output, ok := s.cache.Get(function.CacheKey, args); ok && cacheable {
 		log.Debugf("Cache hit for %s %v -> %#v", function.CacheKey, args, v)
 		if len(output) > 0 {
 			_, err := s.Out.Write(output)
@@ -804,9 +807,21 @@ func (s *State) applyFunction(name string, fn object.Object, args []object.Objec
 	if res.Type() == object.FUNC {
 		return res
 	}
+	if !cacheable {
+		return res
+	}
 	s.cache.Set(function.CacheKey, args, res, output)
 	log.Debugf("Cache miss for %s %v", function.CacheKey, args)
 	return res
+}
+
+func hasConstantParameter(fn object.Function) bool {
+	for _, p := range fn.Parameters {
+		if object.Constant(p.Value().Literal()) {
+			return true
+		}
+	}
+	return false
 }
 
 func (s *State) extendFunctionEnv(
